@@ -63,6 +63,7 @@ func symbols() *sl.Symbols {
 		sl.Op{Name: "del2", Kind: "del", Ids: []int{1, 2}},
 		sl.Op{Name: "reject: duplicate id in batch", Kind: "ins", Ids: []int{4, 4}, Docs: []sl.Doc{doc(3), doc(3)}},
 		sl.Op{Name: "reject: existing id last of 3", Kind: "ins", Ids: []int{4, 5, 1}, Docs: []sl.Doc{doc(3), doc(4), doc(0)}},
+		sl.Op{Name: "reject: existing id without data last of 3", Kind: "ins", Ids: []int{4, 5, 1}, Docs: []sl.Doc{doc(3), doc(4), sl.NoData}},
 		sl.Op{Name: "reject: merged document oversized", Kind: "upd", Ids: []int{2, 1}, Docs: []sl.Doc{doc(6), {"big": big}}},
 		sl.Op{Name: "reject: wrong field type", Kind: "ins", Ids: []int{4, 5}, Docs: []sl.Doc{doc(3), {"a": "not a number", "txt": "fox"}}},
 		sl.Op{Name: "ins1(pq field)", Kind: "ins", Ids: []int{4}, Docs: []sl.Doc{{"pq": stored[1], "txt": "fox"}}},
@@ -353,7 +354,7 @@ func clip(s string) string {
 }
 
 func master(cfg *harness.Config, rep *harness.Report) {
-	rep.Rule = "cases = start state {empty, 3 points warm, 3 points reopened cold} x batch {insert 1, insert 3, update every indexed field of 2 points, remove every indexed field, delete 2, and the validation rejections: duplicate id in batch, existing id last of 3, merged document over MaxPointSize, wrong field type; plus an index whose construction fails}; per case a counting run, then one run per fault point = every (bucket, kind in {Put, Delete, ForEach, Scan, BucketOpen, TxBegin}, ordinal) the batch issues, failing exactly that operation; the first and last ordinal of every (bucket, kind) and the fault-free batch additionally under two schedule policies (index pipelines held back / point store held back); and one run that takes a crash image of the file at every storage operation, when the transaction function returned, and after commit. Oracle: a failed call leaves observation battery + raw bucket digest identical to before, on the running instance and after reopen; a successful call equals the reference model; crash images before commit equal the state before, after commit the model after; storage use after transaction end is recorded by the proxy. distinct_nontrivial = fault points that fired"
+	rep.Rule = "cases = start state {empty, 3 points warm, 3 points reopened cold} x batch {insert 1, insert 3, update every indexed field of 2 points, remove every indexed field, delete 2, and the validation rejections: duplicate id in batch, existing id last of 3 (with a document, and as a point without any data), merged document over MaxPointSize, wrong field type; plus an index whose construction fails}; per case a counting run, then one run per fault point = every (bucket, kind in {Put, Delete, ForEach, Scan, BucketOpen, TxBegin}, ordinal) the batch issues, failing exactly that operation; the first and last ordinal of every (bucket, kind) and the fault-free batch additionally under two schedule policies (index pipelines held back / point store held back); and one run that takes a crash image of the file at every storage operation, when the transaction function returned, and after commit. Oracle: a failed call leaves observation battery + raw bucket digest identical to before, on the running instance and after reopen; a successful call equals the reference model; crash images before commit equal the state before, after commit the model after; storage use after transaction end is recorded by the proxy. distinct_nontrivial = fault points that fired"
 	rep.Assumptions = []string{"Get cannot return an error in the storage API: reads are counted, not failed", "bbolt's own commit (page writes + fsync) is atomic: torn pages inside a commit are not enumerated", "goroutine interleavings inside the batch are those the real scheduler produced (schedule policies: see DESIGN.md)"}
 	p := pool.New(pool.Options{CPUsPerWorker: 2, JobTimeout: 90 * time.Second})
 	run := func(jobs []job) []pool.Result {
@@ -377,7 +378,7 @@ func master(cfg *harness.Config, rep *harness.Report) {
 		}
 		return
 	}
-	batches := []string{"ins1", "ins3", "upd(all indexed fields of 1, 2)", "upd(remove fields of 1)", "del2", "reject: duplicate id in batch", "reject: existing id last of 3", "reject: merged document oversized", "reject: wrong field type"}
+	batches := []string{"ins1", "ins3", "upd(all indexed fields of 1, 2)", "upd(remove fields of 1)", "del2", "reject: duplicate id in batch", "reject: existing id last of 3", "reject: existing id without data last of 3", "reject: merged document oversized", "reject: wrong field type"}
 	var cases []Case
 	for _, st := range []string{"empty", "warm3", "cold3"} {
 		for _, b := range batches {
